@@ -97,7 +97,7 @@ def ob_pure(ctx):
     st = ctx.stack
     P = ctx.P
     m = P["m"]
-    fault = ctx.mk.pick("fault", m + 2)
+    fault = P["fault"] if "fault" in P else ctx.mk.pick("fault", m + 2)
     kind = ctx.mk.pick("fault_kind", 4) if fault else 0
     data_fault = fault and kind >= 2 and (P["refs"] or fault == 1)
     vec, mods, recs = _build(ctx, st, P, bad=(fault - 1, kind) if data_fault else None)
@@ -153,7 +153,13 @@ def obligations(tier, seed):
             for sympos in range(m + 1):
                 if tier == "quick" and m == 2 and sympos == 1:
                     continue
-                obs.append(Ob("purity m=%d citations-everywhere=%s symbolic-feature-in=el%d" % (m, refs, sympos), ob_pure,
-                              dict(m=m, refs=refs, sympos=sympos), samples=10, cost=40 ** m,
-                              expect_witness=("product", "MissingModule", "DuplicateModules", "InvalidSequence", "fault-hit")))
+                if m == 1:
+                    obs.append(Ob("purity m=%d citations-everywhere=%s symbolic-feature-in=el%d" % (m, refs, sympos), ob_pure,
+                                  dict(m=m, refs=refs, sympos=sympos), samples=10, cost=40 ** m,
+                                  expect_witness=("product", "MissingModule", "DuplicateModules", "InvalidSequence", "fault-hit")))
+                    continue
+                for fault in range(m + 2):  # the fault position is case-split into separate obligations
+                    obs.append(Ob("purity m=%d citations-everywhere=%s symbolic-feature-in=el%d fault-at=%d" % (
+                        m, refs, sympos, fault), ob_pure, dict(m=m, refs=refs, sympos=sympos, fault=fault), samples=6,
+                        cost=40 ** m / 2, expect_witness=("MissingModule", "DuplicateModules", "InvalidSequence") + (("product",) if fault == 0 else ())))
     return obs
